@@ -863,14 +863,16 @@ def run(tier):
     # model drift on replays: the model's verdict of each step of an as-the-code-is behaviour vs lopdf's
     drift = 0
     for i, (r, v) in enumerate(zip(rep, vs[:len(rep)])):
-        if r["ev"] != "Call" or not chosen[r["prog"]]["asis"] or v["v"] == "ok-outside-domain":
+        # (the model world's deep tree is scaled - bound 3 instead of 128 -: lopdf does not show the defect there)
+        if r["ev"] != "Call" or not chosen[r["prog"]]["asis"] or v["v"] == "ok-outside-domain" \
+                or chosen[r["prog"]]["start"]["tree"] == "deepA":
             continue
         mv = sorted(t for t in r["mv"] if not is_drift(t))
         lv = sorted(t for t in v["tags"] if not is_drift(t)) if v["v"] == "violation" else []
         if mv != lv:
             drift += 1
     for k, c in enumerate(chosen):
-        if c["asis"] and k in finals and not any(st["c"]["op"] == "SaveLoad" for st in c["calls"]):
+        if c["asis"] and k in finals and c["start"]["tree"] != "deepA" and not any(st["c"]["op"] == "SaveLoad" for st in c["calls"]):
             f = finals[k]
             if norm([f["objects"], f["trailer"], f["bms"]]) != norm([c["final"]["objects"], c["final"]["trailer"], c["final"]["bms"]]):
                 drift += 1
